@@ -196,3 +196,33 @@ KEEP_WORDS = set("""field fields argument arguments variable variables type type
 not never cannot is are of on in for to the a an must be selection subselection selections leaf scalar object interface union
 enum input non null nullable list expected found missing duplicate conflict conflicting merge different return response name names
 fragment spread possible condition operation query mutation value values invalid syntax error unexpected position default""".split())
+
+
+# ---------------------------------------------------------------------------
+# aggregation helper for analyzers that return {violations, stats, nontrivial, sample, ...}
+# ---------------------------------------------------------------------------
+def aggregate(results, key, distinct_field=None):
+    import collections
+    v, stats, samples, distinct = [], collections.Counter(), [], set()
+    ok = nontrivial = 0
+    for r in results:
+        a = r["results"].get(key)
+        if not a:
+            continue
+        ok += 1 if r.get("ok") else 0
+        v += a["violations"]
+        stats.update(a.get("stats") or {})
+        if a.get("nontrivial"):
+            nontrivial += 1
+            if distinct_field:
+                d = a.get(distinct_field)
+                if isinstance(d, list):
+                    distinct.update(d)
+                elif d is not None:
+                    distinct.add(d)
+            else:
+                distinct.add(r["cid"])
+        if a.get("sample") and len(samples) < 3:
+            samples.append(a["sample"])
+    return {"violations": v, "stats": dict(stats), "samples": samples, "ok": ok, "nontrivial": nontrivial,
+            "distinct": len(distinct)}
